@@ -231,6 +231,24 @@ func (e *Exec) Outstanding() int {
 	return n
 }
 
+// OutstandingOn counts the unreturned calls of the given ops on proc.
+func (e *Exec) OutstandingOn(proc string, ops ...string) int {
+	e.mu.Lock()
+	defer e.mu.Unlock()
+	n := 0
+	for _, c := range e.H.Calls {
+		if c.SeqRet >= 0 || c.Proc != proc {
+			continue
+		}
+		for _, o := range ops {
+			if c.Op == o {
+				n++
+			}
+		}
+	}
+	return n
+}
+
 func (e *Exec) call(op, proc string, fn func() (map[string]string, error)) {
 	e.mu.Lock()
 	e.nCalls++
@@ -344,6 +362,7 @@ func (e *Exec) apply(st Step) bool {
 		}
 		return false
 	case OpStart:
+		e.noteCurrent(st)
 		e.call(OpStart, st.Proc, noStatus(func() error { return e.R.StartProcess(st.Proc) }))
 	case OpStop:
 		e.call(OpStop, st.Proc, noStatus(func() error { return e.R.StopProcess(st.Proc) }))
@@ -351,6 +370,7 @@ func (e *Exec) apply(st Step) bool {
 		names := st.Names
 		e.call(OpStopMany, strings.Join(names, ","), func() (map[string]string, error) { return e.R.StopProcesses(names) })
 	case OpRestart:
+		e.noteCurrent(st)
 		e.call(OpRestart, st.Proc, noStatus(func() error { return e.R.RestartProcess(st.Proc) }))
 	case OpScale:
 		n := st.N
@@ -548,4 +568,23 @@ func (h *History) Trace() string {
 		b.WriteByte('\n')
 	}
 	return b.String()
+}
+
+// noteCurrent leaves the scenario so far on disk before a step that can crash the whole
+// test process (a runtime panic inside the runner cannot be recovered by the harness).
+func (e *Exec) noteCurrent(next Step) {
+	dir := os.Getenv("VERIF_FAIL_DIR")
+	if dir == "" {
+		return
+	}
+	e.mu.Lock()
+	cp := *e.Sc
+	cp.Steps = nil
+	for _, a := range e.H.Applied {
+		cp.Steps = append(cp.Steps, a.Step)
+	}
+	e.mu.Unlock()
+	cp.Steps = append(cp.Steps, next)
+	b, _ := json.Marshal(map[string]any{"scenario": cp, "note": "scenario in flight when the process died"})
+	_ = os.WriteFile(filepath.Join(dir, "inflight.tmp"), b, 0o644)
 }
